@@ -184,8 +184,16 @@ def run(ctx: Ctx) -> None:
         for i in idxs[:ctx.pick(4, 12)]:
             jobs.append((sc, i))
     run_pairs(ctx, jobs)
+    # the datagram front end on its own: the model Listener.tla (duplicate guard, truncated trains) explored by TLC, its
+    # histories delivered to a real listener and judged by TLC against ListenerContract.tla (clause C16_DuplicateEffect)
+    from props import listenermodel
+    listenermodel.run(ctx, 'C16')
 
 
 def replay(ctx: Ctx, path: str) -> None:
     d = json.load(open(path))['replay']
+    if 'listener_history' in d:
+        from props import listenermodel
+        listenermodel.run(ctx, 'C16', [dict(d['listener_history'], id='listener-replay')])
+        return
     run_pairs(ctx, [(d['scenario'], d['mode'])])
